@@ -28,7 +28,7 @@ def gen_cases(tier, seed):
             forms = ["functional", "module"]
             for form in forms:
                 for rep in range(reps):
-                    for icl in ("sweep", "spread", "uniform_big", "moderate"):
+                    for icl in ("sweep", "spread", "uniform_big", "moderate", "band"):
                         c = {"op": op, "dtype": dt, "form": form, "icl": icl, "seed": int(rng.integers(2 ** 31))}
                         if op in ("softmax", "log_softmax"):
                             shp = [[6], [3, 5], [2, 3, 4]][rep % 3]
@@ -60,6 +60,11 @@ def inputs(rng, c):
         v = v + float(rng.uniform(-1, 1)) * (1e4 - spread / 2)
     elif icl == "uniform_big":
         v = rng.uniform(-1e4, 1e4, shp)
+    elif icl == "band":
+        # every element inside (-700, 700) - finite for float64 exp - but far beyond the float32 limit 88.7: magnitudes 150, 400, 650
+        v = rng.uniform(-1.0, 1.0, shp) * float([150.0, 400.0, 650.0][int(rng.integers(3))])
+        if v.size:
+            v.flat[int(rng.integers(v.size))] = 0.97 * float(np.max(np.abs(v))) if v.size else 0.0
     else:
         v = rng.uniform(-8, 8, shp)
     return np.clip(v, -1e4, 1e4)
